@@ -64,7 +64,7 @@ def run(ctx):
         ctx.check(ok and not direct, "R5.1", m.qualname, "reach process_schema", loc(m, m.node),
                   "serializer %s does not go through Schema2Base.process_schema (the only place that refuses a schema "
                   "merged from several libraries)" % nm, desc="%s -> process_schema" % nm)
-    ctx.floor("R5.1", "public serializers", n_ser, 6)
+    ctx.floor("R5.1", "public serializers", n_ser, 4)
     # subclasses must not override process_schema without calling super
     for w in writers:
         if "process_schema" in w.methods:
@@ -98,7 +98,7 @@ def run(ctx):
     # ---------------- R5.2
     hooks = [m for m in base.all_methods if len(m.node.body) <= 2 and any(
         isinstance(s, ast.Raise) and "NotImplementedError" in norm(s) for s in m.node.body)]
-    ctx.floor("R5.2", "writer hooks", len(hooks), 7)
+    ctx.floor("R5.2", "writer hooks", len(hooks), 5)
     for h in hooks:
         # arity the base class uses at its call sites
         max_pos = 0
@@ -226,7 +226,7 @@ def run(ctx):
         if isinstance(n, ast.Constant) and isinstance(n.value, str) and n.value.startswith("!#"):
             ctx.check(n.value in known, "R5.4", s2w.name, "literal %r" % n.value, "%s:%d" % (s2w.relpath, n.lineno),
                       "the MediaWiki writer emits the literal marker %r which the reader does not recognise" % n.value)
-    ctx.floor("R5.4", "wiki marker constants used by the writer", n_wc, 5)
+    ctx.floor("R5.4", "wiki marker constants used by the writer", n_wc, 4)
 
     # ---------------- R5.4 TSV
     dc = prog.find_module("schema.hed_schema_df_constants")
@@ -270,7 +270,7 @@ def run(ctx):
                           "the TSV row built here has columns %s which match no declared sheet column list (%s): the "
                           "column is written empty or dropped and reloads differently" % (sorted(keys | extra), missing),
                           desc="%s row shape = a declared column list" % m.short)
-    ctx.floor("R5.4", "TSV row shapes built by the writer", n_rows, 5)
+    ctx.floor("R5.4", "TSV row shapes built by the writer", n_rows, 4)
     n_reads = 0
     for m in d2s.all_methods:
         for n in walk_no_nested(m.node):
